@@ -1,0 +1,69 @@
+//go:build verif
+
+package revocation
+
+// Machine-checked contracts for package revocation (checked by /verif/govc; comment-only file).
+// Properties C06, C11, C12, C17.
+
+//@ import "crypto/x509"
+//@ import "time"
+//@ import "github.com/notaryproject/notation-core-go/revocation/result"
+//@ import "github.com/notaryproject/notation-core-go/revocation/purpose"
+//@ import "github.com/notaryproject/notation-core-go/revocation/internal/ocsp"
+//@ import "github.com/notaryproject/notation-core-go/revocation/internal/crl"
+//@ import "github.com/notaryproject/notation-core-go/revocation/internal/x509util"
+//@ import corex509 "github.com/notaryproject/notation-core-go/x509"
+
+//@ spec func Verdict(r result.Result) bool { r == result.ResultOK || r == result.ResultUnknown || r == result.ResultRevoked }
+
+// stmt C11 + C06 + C12, per non-root certificate c with issuer iss and its result res:
+//@ stmt spec func SlotOK(c *x509.Certificate, iss *x509.Certificate, res *result.CertRevocationResult, t time.Time) bool {
+//@     res != nil &&
+//@     (ocsp.Supported$(c) ==>
+//@         ((res.RevocationMethod == result.RevocationMethodOCSP && Verdict(res.Result) &&
+//@             (res.Result == result.ResultUnknown ==> !crl.Supported$(c)) &&
+//@             (res.Result == result.ResultOK ==> (exists k :: 0 <= k && k < len(c.OCSPServer) && ocsp.OKEvidence(c, iss, c.OCSPServer[k], t))) &&
+//@             (res.Result == result.ResultRevoked ==> (exists k :: 0 <= k && k < len(c.OCSPServer) && ocsp.RevokedEvidence(c, iss, c.OCSPServer[k], t)))) ||
+//@          (res.RevocationMethod == result.RevocationMethodOCSPFallbackCRL && crl.Supported$(c) && Verdict(res.Result) && len(res.ServerResults) >= 2))) &&
+//@     ((!ocsp.Supported$(c) && crl.Supported$(c)) ==> res.RevocationMethod == result.RevocationMethodCRL && Verdict(res.Result) &&
+//@             (res.Result == result.ResultOK ==> len(res.ServerResults) == len(c.CRLDistributionPoints))) &&
+//@     ((!ocsp.Supported$(c) && !crl.Supported$(c)) ==> res.Result == result.ResultNonRevokable && res.RevocationMethod == result.RevocationMethodUnknown) &&
+//@     (res.Result == result.ResultNonRevokable ==> (!ocsp.Supported$(c) && !crl.Supported$(c))) }
+
+//@ spec func ChainReady(ch []*x509.Certificate) bool {
+//@     corex509.ChainInput(ch) && (forall i :: 0 <= i && i < len(ch) ==> ch[i].SerialNumber != nil) }
+
+//@ func (*revocation).ValidateContext(r, ctx, validateContextOpts)
+//@   props C06 C11 C12 C17
+//@   requires r != nil && r.ocspHTTPClient != nil
+//@   requires ChainReady(validateContextOpts.CertChain)
+//@   calls Client.Do, Fetcher.Fetch
+//@   maypanic
+//@   owns $1 certResults[i]
+//@   owns $2 certResults[i]
+//@   ensures [invalid=>error-no-results] (len(validateContextOpts.CertChain) == 0 || x509util.ValidateChain$(validateContextOpts.CertChain, r.certChainPurpose) != nil) ==> len(result) == 0 && result == nil && typeof(err) == type(result.InvalidChainError)
+//@   ensures [valid=>one-per-cert] (len(validateContextOpts.CertChain) > 0 && x509util.ValidateChain$(validateContextOpts.CertChain, r.certChainPurpose) == nil) ==> err == nil && len(result) == len(validateContextOpts.CertChain) && fresh(result)
+//@   ensures [root-nonrevokable] err == nil ==> result[len(result)-1] != nil && result[len(result)-1].Result == result.ResultNonRevokable && result[len(result)-1].RevocationMethod == result.RevocationMethodUnknown
+//@   ensures [per-certificate] err == nil ==> forall k :: 0 <= k && k < len(result) - 1 ==> SlotOK(validateContextOpts.CertChain[k], validateContextOpts.CertChain[k+1], result[k], validateContextOpts.AuthenticSigningTime)
+//@   ensures [no-lost-panic] !panicked()
+// fallback merge (C11): OCSP server results first, then the CRL ones
+//@   assert after call append#0: [fallback-order] len(result) == len(ocspResult.ServerResults) + len(serverResult.ServerResults) && (forall k :: 0 <= k && k < len(ocspResult.ServerResults) ==> result[k] == ocspResult.ServerResults[k]) && (forall k :: 0 <= k && k < len(serverResult.ServerResults) ==> result[len(ocspResult.ServerResults) + k] == serverResult.ServerResults[k])
+// the CRL check of the fallback happens exactly when OCSP ended Unknown and the certificate names distribution points
+//@   assert before call crl.CertCheckStatus#0: [fallback-guard] ocspResult != nil && ocspResult.Result == result.ResultUnknown && crl.Supported$(cert) && ocsp.Supported$(cert)
+//@   assert before call crl.CertCheckStatus#1: [crl-only-guard] !ocsp.Supported$(cert) && crl.Supported$(cert)
+//@   loop 0
+//@     invariant len(certChain) > 0 && certChain == validateContextOpts.CertChain && len(certResults) == len(certChain) && fresh(certResults) && r.ocspHTTPClient != nil
+//@     invariant ocspOpts.HTTPClient == r.ocspHTTPClient && ocspOpts.SigningTime == validateContextOpts.AuthenticSigningTime && crlOpts.Fetcher == r.crlFetcher && crlOpts.SigningTime == validateContextOpts.AuthenticSigningTime
+//@     invariant !panicked() ==> (forall k :: 0 <= k && k < it ==> SlotOK(certChain[k], certChain[k+1], certResults[k], validateContextOpts.AuthenticSigningTime))
+//@     invariant forall k :: lent(certResults, k) ==> 0 <= k && k < it
+//@     invariant !panicked() ==> (forall k :: 0 <= k && k < it ==> allocated(certResults[k]))
+//@     invariant chanlen(panicChan) <= it && chanlen(panicChan) >= 0 && (panicked() <==> chanlen(panicChan) > 0)
+
+//@ func (*revocation).Validate(r, certChain, signingTime)
+//@   requires r != nil && r.ocspHTTPClient != nil
+//@   requires ChainReady(certChain)
+//@   calls Client.Do, Fetcher.Fetch
+//@   maypanic
+//@   ensures [invalid=>error-no-results] (len(certChain) == 0 || x509util.ValidateChain$(certChain, r.certChainPurpose) != nil) ==> result == nil && typeof(err) == type(result.InvalidChainError)
+//@   ensures [valid=>one-per-cert] (len(certChain) > 0 && x509util.ValidateChain$(certChain, r.certChainPurpose) == nil) ==> err == nil && len(result) == len(certChain)
+//@   ensures [per-certificate] err == nil ==> forall k :: 0 <= k && k < len(result) - 1 ==> SlotOK(certChain[k], certChain[k+1], result[k], signingTime)
